@@ -338,4 +338,5 @@ func TestC03(t *testing.T) {
 
 	rapidProp(t, st, "proposal", perShard(pick(320, 12000)), 1, c03Gen, func(p sPlan) *viol { return c03Run(t, st, p) })
 	rapidProp(t, st, "cli-export", perShard(pick(64, 1600)), 5, c03GenExport, func(p c03ExportPlan) *viol { return c03RunExport(t, st, p) })
+	rapidProp(t, st, "repeated-identifier", perShard(pick(48, 1200)), 9, c03GenRepeat, func(p c03Repeat) *viol { return c03RunRepeat(t, st, p) })
 }
